@@ -3,8 +3,8 @@ vectors and three iterators, from all six storage states, plus a malformed strea
 derived families (panic at a callback, forget at an iterator step, failing allocator request)"""
 import random, zlib
 
-CLASSES = ["8x8", "3x1", "24x8", "1x1", "2x2", "16x16", "64x64", "2048x8", "8x8c", "3x1c", "16x16c", "64x64c"]
-TRACKED = [c for c in CLASSES if not c.endswith("c")]
+CLASSES = ["8x8", "3x1", "24x8", "1x1", "2x2", "16x16", "64x64", "2048x8", "8x8c", "3x1c", "16x16c", "64x64c", "8x8k"]
+TRACKED = [c for c in CLASSES if not (c.endswith("c") or c.endswith("k"))]
 
 class G:
     def __init__(self, rng, flavor):
@@ -261,8 +261,10 @@ class G:
     def o_iterstep(self):
         i = self.r.choice(list(self.iters)); kind = self.iters[i][0]
         c = self.r.random()
-        if c < 0.45:
+        if c < 0.40:
             self.ops.append("next %d" % i)
+        elif c < 0.47:
+            self.ops.append("nth %d %d" % (i, self.r.choice([0, 1, 1, 2, 3, 7])))
         elif c < 0.75 and kind != "filter":
             self.ops.append("nextb %d" % i)
         elif c < 0.87:
@@ -361,7 +363,9 @@ def iter_scenario(rng, flavor, hid):
     clones = 0
     for _ in range(total):
         c = rng.random()
-        if c < 0.5 or kind == "dfilter":
+        if c < 0.08:
+            ops.append("nth 0 %d" % rng.choice([0, 1, 2, 3, w, w + 1]))
+        elif c < 0.5 or kind == "dfilter":
             ops.append("next 0")
         elif c < 0.9:
             ops.append("nextb 0")
@@ -397,13 +401,13 @@ FLAVORS = {
     "C02": {"iter_share": 0.4, "malformed": 0.04, "classes": TRACKED},
     "C03": {"iter_share": 0.2, "malformed": 0.04, "weights": {"shrinkfit": 3, "shrinkto": 2, "reserve": 2, "reservex": 2, "clear": 3, "splice": 1.5, "splitoff": 2}},
     "C04": {"iter_share": 0.45, "panic": True, "classes": TRACKED, "malformed": 0.05, "weights": {"clear": 5, "trunc": 2.5, "macrep": 4, "resize": 2, "extslice": 1.5, "clone": 2, "fromslice": 2, "extwithin": 2, "retain": 2, "dedupby": 2}},
-    "C05": {"iter_share": 0.6, "forget": True, "classes": TRACKED, "malformed": 0.03, "weights": {"drain": 2, "splice": 2, "dfilter": 2, "intoiter": 2, "iterstep": 1.5, "iterend": 2}},
+    "C05": {"iter_share": 0.6, "forget": True, "classes": TRACKED + TRACKED + ["8x8c", "3x1c", "16x16c", "64x64c", "8x8k"], "malformed": 0.03, "weights": {"drain": 2, "splice": 2, "dfilter": 2, "intoiter": 2, "iterstep": 1.5, "iterend": 2}},
     "C06": {"iter_share": 0.2, "start": "never", "maxops": 6, "malformed": 0.05},
     "C07": {"iter_share": 0.15, "malformed": 0.03, "weights": {"reserve": 3, "reservex": 3, "shrinkfit": 2, "shrinkto": 3, "spare": 3, "splitspare": 3}},
     "C08": {"start": "overaligned", "malformed": 0.03, "weights": {"shrinkfit": 3, "clear": 3, "shrinkto": 2, "reserve": 2, "splitoff": 2, "drainvec": 2, "intoiter": 1.5}},
     "C10": {"iter_share": 0.6, "malformed": 0.03, "weights": {"drain": 3, "splice": 3, "dfilter": 3, "intoiter": 3, "iterstep": 2.5}},
     "C11": {"malformed": 0.5},
-    "C12": {"iter_share": 0.5, "iter_kinds": ["intoiter"], "classes": TRACKED, "malformed": 0.03, "weights": {"clone": 4, "intoiter": 4, "iterstep": 2}},
+    "C12": {"iter_share": 0.5, "iter_kinds": ["intoiter"], "classes": TRACKED + ["8x8k", "8x8k"], "malformed": 0.03, "weights": {"clone": 4, "intoiter": 4, "iterstep": 2}},
     "C14": {"raw": True, "malformed": 0.03, "weights": {"rawrt": 12}},
     "C15": {"malformed": 0.02, "weights": {"cmp": 25, "clone": 3, "push": 2}},
     "C17": {"iter_share": 0.5, "illbehaved": True, "classes": TRACKED, "malformed": 0.03, "weights": {"splice": 4, "extend": 3, "fromiter": 3, "retain": 2, "dedupby": 2, "dfilter": 2}},
@@ -450,7 +454,7 @@ SENTINEL_OPS = ["push 0", "pop 0", "insert 0 0", "insert 0 1", "remove 0 0", "sw
                 "drain 0 0 u u ; next 0 ; nextb 0 ; hint 0 ; dropit 0", "drain 0 0 u u ; nextb 0 ; next 0 ; forget 0", "drain 0 0 i0 e0 ; nextb 0 ; dropit 0",
                 "drain 0 0 i0 e1", "splice 0 0 u u - ; nextb 0 ; next 0 ; dropit 0", "splice 0 0 u u SSS ; next 0 ; nextb 0 ; hint 0 ; dropit 0",
                 "splice 0 0 i0 e0 SS ; dropit 0", "splice 0 0 u u SSSSS ; forget 0", "dfilter 0 0 TF ; next 0 ; hint 0 ; dropit 0", "dfilter 0 0 - ; forget 0",
-                "intoiter 0 0 ; next 0 ; nextb 0 ; hint 0 ; asslice 0 ; cloneit 0 1 ; next 1 ; dropit 1 ; dropit 0", "intoiter 0 0 ; forget 0",
+                "intoiter 0 0 ; next 0 ; nextb 0 ; hint 0 ; asslice 0 ; cloneit 0 1 ; next 1 ; dropit 1 ; dropit 0", "intoiter 0 0 ; forget 0", "intoiter 0 0 ; nth 0 1 ; nth 0 9 ; dropit 0", "intoiter 0 0 ; nextb 0 ; nth 0 L ; dropit 0", "drain 0 0 u u ; nth 0 1 ; nextb 0 ; nth 0 5 ; dropit 0", "splice 0 0 u u S ; nth 0 2 ; dropit 0", "dfilter 0 0 TFTTF ; nth 0 1 ; dropit 0",
                 "intoiter 0 0 ; cloneit 0 1 ; dropit 0 ; nextb 1 ; asslice 1 ; dropit 1"]
 
 def sentinel_scenario(rng, hid, k=None):
